@@ -143,6 +143,40 @@ func checkBarFields(w *World, r *Report, rule string) {
 					}
 				}
 			}
+			// a private helper of flush, called from inside the collection loop with the iterated bar
+			if !ok && a.Fn != flush && fi.Undecided == "" && w.unit(flush)[a.Fn] {
+				base := w.origin(a.Base)
+				if par, isP := base.(*ssa.Parameter); isP && par.Parent() == a.Fn {
+					idx := -1
+					for i, q := range a.Fn.Params {
+						if q == par {
+							idx = i
+						}
+					}
+					sites := w.callers[a.Fn]
+					all := len(sites) > 0 && idx >= 0
+					var loop *loopInfo
+					for _, l := range naturalLoops(flush) {
+						if l.Header == fi.Header {
+							loop = l
+						}
+					}
+					for _, site := range sites {
+						if site.Parent() != flush || site.Common().StaticCallee() != a.Fn || loop == nil || !loop.Blocks[site.Block()] ||
+							idx >= len(site.Common().Args) || w.origin(site.Common().Args[idx]) != fi.Bar {
+							all = false
+						}
+					}
+					if all {
+						ok, why = true, "flush hand-over window (iterated bar, in a helper called from the collection loop)"
+					}
+				}
+				if ex, isEx := base.(*ssa.Extract); isEx {
+					if lk, isLk := ex.Tuple.(*ssa.Lookup); isLk && isLoad(Val{V: lk.X}, tPState, "queueBars") {
+						ok, why = true, "parked successor (not in the heap)"
+					}
+				}
+			}
 			k := "read"
 			if a.Write {
 				k = "write"
